@@ -12,3 +12,6 @@ for id in "$@"; do
   python3 -m cqverif.check "$id" --tier quick | grep -E "VIOLATION|UNKNOWN|ANALYSIS BROKEN|KNOWN-FINDING|exit" ; r=${PIPESTATUS[0]}
   echo "== $id exit=$r"
 done
+# restore evidence of the unchanged tree
+git -C /repo checkout -- . ; trap - EXIT
+for id in "$@"; do python3 -m cqverif.check "$id" --tier quick >/dev/null; done
